@@ -40,6 +40,9 @@ fn classes(s: &Summary, st: &mut Stats) {
     if s.loose > 0 {
         st.class("contains a transaction without prescribed schedule");
     }
+    if s.reconfigured_midflight > 0 {
+        st.class("reconfigured after at least one retransmission (exact schedule continues from the count so far)");
+    }
     st.class_n("WaitUntil values compared", s.waits_checked as u64);
 }
 
@@ -111,7 +114,7 @@ fn schedule_history() -> BoxedStrategy<History> {
                     ops.push(Op::Poll);
                 }
             }
-            History { tcp, ops }
+            History { tcp, ops, remote: 0 }
         })
         .boxed()
 }
@@ -226,7 +229,7 @@ pub fn run(ctx: &Ctx) -> EvidenceMeta {
                     ops.push(Op::Poll);
                     ops.push(Op::Poll);
                 }
-                items.push(History { tcp, ops });
+                items.push(History { tcp, ops, remote: 0 });
             }
         }
     }
